@@ -7,9 +7,10 @@ import runmon
 
 
 def run(chk):
-    runmon.monitor_run(chk, chk.tier)
+    if not chk.parallel(os.path.abspath(__file__), runmon.parts(chk.tier), post_merge=runmon.post_merge):
+        runmon.monitor_run(chk, chk.tier)
     keep = ('timers-follow-policy', 'run-explored')
-    chk.obligations = [o for o in chk.obligations if o.name in keep]
+    chk.obligations = [o for o in chk.obligations if o.name in keep or o.name.startswith('part:')]
     chk.bounds.update({'run loop iterations': 2, 'pending polls per timer': 1, 'timer firing orders': 'all subsets/orders of the two timers within the poll bound'})
     chk.assumptions += [
         'the real future::join / Fuse / select! code of the crate is executed; Timer futures are environment futures that may be pending; MaybeDone semantics of join (a finished side is not polled again) is the model of futures::future::join',
